@@ -1,7 +1,7 @@
 (* C05 — displayed line numbers are the true old/new file line numbers.  Statements only. *)
 From Coq Require Import List Bool NArith.
 Import ListNotations.
-From DV Require Import LineNo LineNoFacts.
+From DV Require Import LineNo LineNoFacts LineNoMono.
 Local Open Scope N_scope.
 
 (* Unified view: whatever precedes it in the hunk, the k-th painted line shows
@@ -17,6 +17,22 @@ Theorem C05_unified : forall pre k post l r,
         | KWrapped => (None, None)
         end).
 Proof. exact unified_numbers. Qed.
+
+(* Consequently the old-file numbers shown grow strictly down a hunk — no two rows show the same
+   old-file line, whatever lies between them — and likewise the new-file numbers. *)
+Theorem C05_unified_old_numbers_increase : forall pre k1 mid k2 post l r,
+  is_old k1 = true -> is_old k2 = true ->
+  let out := run_unified (l, r) (pre ++ k1 :: mid ++ k2 :: post) in
+  exists a b, option_map fst (nth_error out (length pre)) = Some (Some a) /\
+              option_map fst (nth_error out (length (pre ++ k1 :: mid))) = Some (Some b) /\ a < b.
+Proof. exact unified_old_increasing. Qed.
+
+Theorem C05_unified_new_numbers_increase : forall pre k1 mid k2 post l r,
+  is_new k1 = true -> is_new k2 = true ->
+  let out := run_unified (l, r) (pre ++ k1 :: mid ++ k2 :: post) in
+  exists a b, option_map snd (nth_error out (length pre)) = Some (Some a) /\
+              option_map snd (nth_error out (length (pre ++ k1 :: mid))) = Some (Some b) /\ a < b.
+Proof. exact unified_new_increasing. Qed.
 
 (* Side-by-side: for every sequence of rows (pairings and wrap counts of any shape) the row
    loop — left panel without increment, right panel with, placeholders painted in the opposite
